@@ -132,4 +132,42 @@ theorem any_endpoints_at_most_once_all_schedules (strict incl : Bool) (c : Sq) (
     successes (run (today strict incl) sched (init st (compileAll c pk st fs))) k ≤ 1 :=
   at_most_one_success_atomic (today strict incl) (Or.inr (Or.inl (today_gad_locked strict incl))) st _ sched k b hk
 
+/-! ### the OpenID4VCI token endpoint as a thread -/
+
+/-- **Refinement (pre-authorized code)**: vcr/issuer `HandleAccessTokenRequest` → `FindAndDeleteReference`, mirrored statement
+    by statement in Vci.lean, leaves the pre-authorized-code store exactly as the thread `preAuthReq` leaves it when it runs
+    alone (lock, Get, Delete, unlock) under today's configuration; the thread is honoured iff the handler answers 200, and
+    ends `notFound` iff the code was not readable.  All codes, issuers, generated tokens, stores, instants, back-ends. -/
+theorem handlePreAuth_refines_thread (strict incl : Bool) (ttl : Kind → Nat) (now : Nat) (s : VciSt) (issuer code tok cn : String) :
+    let w := run (today strict incl) soloSched { store := s.codes, now := now, lock := none,
+                                                 ths := [.burn (preAuthReq ⟨incl, now, ttl⟩ s issuer code tok cn) .start 0] }
+    w.store = (handlePreAuth ⟨incl, now, ttl⟩ s issuer code tok cn).st.codes ∧
+    ((w.ths[0]?.bind Thread.outcome) = some .ok ↔ (handlePreAuth ⟨incl, now, ttl⟩ s issuer code tok cn).ans = .ok) ∧
+    ((w.ths[0]?.bind Thread.outcome) = some .notFound ↔ stGet incl s.codes now (preAuthKey code) = none) := by
+  have h1 := solo_plain_run (today strict incl) (today_gad_locked strict incl) (preAuthReq ⟨incl, now, ttl⟩ s issuer code tok cn)
+    (Or.inr rfl) rfl rfl rfl rfl s.codes now
+  have h2 := handlePreAuth_eq_solo (today strict incl) ttl now s issuer code tok cn
+  simp only [show (today strict incl).expInclusive = incl from rfl] at h2
+  simp only at h1 ⊢
+  rw [h1.1, h1.2.1]
+  refine ⟨h2.1.symm, ?_, ?_⟩
+  · rw [← h2.2.1]; simp
+  · rw [← h2.2.2]; simp
+
+/-- non-vacuity: a live code at the right issuer is honoured (thread `post` = true), at the wrong issuer it is consumed and refused -/
+example :
+    let s : VciSt := ⟨[(preAuthKey "c1", ⟨"f1", 900⟩)], [("f1", ⟨"own", 900⟩)], [], []⟩
+    (preAuthReq ⟨true, 0, todayTTL⟩ s "own" "c1" "t" "n").post = true ∧
+    (preAuthReq ⟨true, 0, todayTTL⟩ s "other" "c1" "t" "n").post = false ∧
+    (handlePreAuth ⟨true, 0, todayTTL⟩ s "other" "c1" "t" "n").st.codes = [] := by
+  decide
+
+/-- **End to end** (OpenID4VCI token endpoint, all interleavings): any number of token requests with any codes at any
+    issuers, interleaved in EVERY way at single-store-call granularity, any back-end: at most one is honoured per code. -/
+theorem preauth_at_most_once_all_schedules (strict incl : Bool) (c : Sq) (s : VciSt) (rs : List (String × String × String × String))
+    (sched : List Ev) (code : String) :
+    successes (run (today strict incl) sched (init s.codes (rs.map (fun x => Req.burn (preAuthReq c s x.1 x.2.1 x.2.2.1 x.2.2.2)))))
+      (preAuthKey code) ≤ 1 :=
+  at_most_one_success_atomic (today strict incl) (Or.inr (Or.inl (today_gad_locked strict incl))) s.codes _ sched (preAuthKey code) .preAuth rfl
+
 end Nuts.C05.Props
